@@ -172,7 +172,7 @@ func C18(tier string) *core.Report {
 // C11 — the compiler accepts the supported subset and its output builds.
 func C11(tier string) *core.Report {
 	r := core.NewReport("C11", tier)
-	fams := append(CFFamilies(tier), importFamily(tier), etaFamily(tier), yfFamily(tier), negativeControlFamily(tier), bystanderFamily(tier), itypeFamily(tier), namesFamily(tier))
+	fams := append(CFFamilies(tier), importFamily(tier), etaFamily(tier), yfFamily(tier), negativeControlFamily(tier), bystanderFamily(tier), itypeFamily(tier), namesFamily(tier), rangeFuncFamily())
 	if tier == "thorough" {
 		fams = append(fams, VarFamilies(tier)...)
 		fams = append(fams, consFamily(tier), rangeFamily("RANGE", tier, false))
